@@ -26,6 +26,8 @@ func newMIDPool(min, max int32) midPool {
 	return &simpleMidPool{
 		min: min,
 		max: max,
+		// an interval holds the free identifiers in (from, to]
+		intervals: []interval{{from: min - 1, to: max}},
 	}
 }
 
@@ -33,12 +35,6 @@ func (m *simpleMidPool) Get() int32 {
 	m.mtx.Lock()
 	defer m.mtx.Unlock()
 	if len(m.intervals) == 0 {
-		m.intervals = []interval{
-			{from: m.min, to: m.max},
-		}
-		return m.min
-	}
-	if m.intervals[0].from == m.max {
 		return -1
 	}
 	m.intervals[0].from++
@@ -58,40 +54,21 @@ func (m *simpleMidPool) Put(mid int32) {
 	idx := sort.Search(len(m.intervals), func(i int) bool {
 		return m.intervals[i].from >= mid
 	})
-	if idx < len(m.intervals) && (m.intervals[idx].from < mid && m.intervals[idx].to >= mid) {
+	if idx > 0 && m.intervals[idx-1].to >= mid {
+		// mid is already free
 		return
 	}
-
-	if idx == len(m.intervals) {
-		if m.intervals[idx-1].from < mid && m.intervals[idx-1].to >= mid {
-			return
-		}
-		if m.intervals[idx-1].to == mid-1 {
-			m.intervals[idx-1].to++
-		} else {
-			if mid > m.intervals[idx-1].to {
-				m.intervals = append(m.intervals, interval{from: mid - 1, to: mid})
-			} else {
-				m.intervals = append(m.intervals[:idx-1], interval{from: mid - 1, to: mid}, m.intervals[idx-1])
-			}
-		}
-	} else if idx > 0 && idx != len(m.intervals) {
-		if m.intervals[idx].to == mid-1 {
-			m.intervals[idx].to++
-		} else if m.intervals[idx-1].to == mid-1 {
-			m.intervals[idx-1].to++
-			if m.intervals[idx-1].to == m.intervals[idx].from {
-				m.intervals[idx].from = m.intervals[idx-1].from
-				m.intervals = append(m.intervals[:idx-1], m.intervals[idx:]...)
-			}
-		} else {
-			m.intervals = append(m.intervals[:idx], append([]interval{{from: mid - 1, to: mid}}, m.intervals[idx:]...)...)
-		}
-	} else {
-		if m.intervals[0].from == mid {
-			m.intervals[idx].from--
-		} else {
-			m.intervals = append([]interval{{from: mid - 1, to: mid}}, m.intervals...)
-		}
+	extendLeft := idx > 0 && m.intervals[idx-1].to == mid-1
+	extendRight := idx < len(m.intervals) && m.intervals[idx].from == mid
+	switch {
+	case extendLeft && extendRight:
+		m.intervals[idx].from = m.intervals[idx-1].from
+		m.intervals = append(m.intervals[:idx-1], m.intervals[idx:]...)
+	case extendLeft:
+		m.intervals[idx-1].to++
+	case extendRight:
+		m.intervals[idx].from--
+	default:
+		m.intervals = append(m.intervals[:idx], append([]interval{{from: mid - 1, to: mid}}, m.intervals[idx:]...)...)
 	}
 }
